@@ -19,6 +19,7 @@ import (
 	"encoding/hex"
 	"encoding/json"
 	"fmt"
+	"github.com/libp2p/go-libp2p/core/peer"
 	"hash/fnv"
 	"io"
 	"log/slog"
@@ -172,10 +173,10 @@ func (c *vCase) Sample(v any) {
 }
 
 // helpers on the case PRNG
-func (c *vCase) Intn(n int) int           { return c.R.IntN(n) }
-func (c *vCase) Range(lo, hi int) int     { return lo + c.R.IntN(hi-lo+1) }
-func (c *vCase) Chance(p float64) bool    { return c.R.Float64() < p }
-func (c *vCase) Pick(n int) int           { return c.R.IntN(n) }
+func (c *vCase) Intn(n int) int        { return c.R.IntN(n) }
+func (c *vCase) Range(lo, hi int) int  { return lo + c.R.IntN(hi-lo+1) }
+func (c *vCase) Chance(p float64) bool { return c.R.Float64() < p }
+func (c *vCase) Pick(n int) int        { return c.R.IntN(n) }
 func (c *vCase) Dur(lo, hi time.Duration) time.Duration {
 	if hi <= lo {
 		return lo
@@ -492,3 +493,5 @@ func vShort(b []byte) string {
 	}
 	return hex.EncodeToString(b)
 }
+
+func peerIDOf(id int) peer.ID { return peer.ID(strconv.Itoa(id)) }
